@@ -76,6 +76,7 @@ def interned_name(k: int):
 R = z3.RealSort()
 I = z3.IntSort()
 B = z3.BoolSort()
+C_inf = z3.Real("+inf")
 
 
 def realval(x):
@@ -86,8 +87,12 @@ def realval(x):
     if isinstance(x, Fraction):
         return z3.RealVal(f"{x.numerator}/{x.denominator}")
     if isinstance(x, float):
-        if x != x or x in (float("inf"), float("-inf")):
-            raise EngineError(f"non-finite float {x} in real context")
+        if x == float("inf"):
+            return C_inf        # +inf as an unspecified (uninterpreted) real: nothing can be proved about it except identity
+        if x == float("-inf"):
+            return -C_inf
+        if x != x:
+            raise EngineError(f"NaN in real context (use the extended-real mode)")
         fr = Fraction(repr(x))
         return z3.RealVal(f"{fr.numerator}/{fr.denominator}")
     raise EngineError(f"cannot make a real of {x!r}")
@@ -729,6 +734,8 @@ def ssqrt(a):
 
 def sexp(a):
     t = z3.simplify(coerce(to_z(a), R))
+    if z3.is_rational_value(t) and t.numerator_as_long() == 0:
+        return SV(z3.RealVal(1))
     s = F_exp(t)
     AX.add(("exp", t.get_id()), z3.And(s > 0, z3.Implies(t <= 0, s <= 1), z3.Implies(t >= 0, s >= 1),
                                        z3.Implies(t == 0, s == 1)))
